@@ -208,7 +208,9 @@ def _bounded_quick():
     b3, n3 = native(0, cfgs=(1,), thread_counts=(1, 3))        # screening kernel with different numbers of threads
     from checks import physics_native as pn
     b4, n4 = pn.history_cases(0)                                  # a device object with a history simulates like a fresh equal device
-    return b1 + b2 + b3 + b4, n1 + n2 + n3 + n4
+    from checks import history_native as hn
+    b5, n5 = hn.search(0, reduced=True)                           # objects with a history (options, device, solver, other solvers alive) vs fresh objects
+    return b1 + b2 + b3 + b4 + b5, n1 + n2 + n3 + n4 + n5
 
 
 def units():
@@ -220,7 +222,7 @@ def units():
     us.append(Unit("TDGLSolver.solve[initial frame]", "tdgl.solver.solver:TDGLSolver.solve", _initial_frame, props=["C09", "C11"], timeout=300))
     us.append(Unit("iteration order", "tdgl (numerical core, syntactic)", run_iteration_order, props=["C09"], timeout=300))
     us.append(Unit("validate_terminal_currents[rng]", "tdgl.solver.solver:validate_terminal_currents", run_rng, props=["C09"], timeout=300))
-    us.append(_h.bounded_unit("same bits in fresh processes [bounded]", "tdgl.solve in fresh processes", "C09", _bounded_quick, "recorded_bytes_independent_of_heap_state_hash_seed_and_thread_count[8 processes]", timeout=900))
+    us.append(_h.bounded_unit("same bits in fresh processes [bounded]", "tdgl.solve in fresh processes", "C09", _bounded_quick, "recorded_bytes_independent_of_heap_state_hash_seed_thread_count_and_object_history[8 processes, 6 histories]", timeout=900))
     return us
 
 
@@ -399,8 +401,11 @@ def thorough(seed=0):
     summary, broken = harness.run_mutants("checks.c09", units(), MUTANTS)
     bad, n = native(seed)
     bad2, n2 = native_hashseed()
-    bad, n = bad + bad2, n + n2
-    bnd = dict(kind="bounded", evaluations=n, failing=len(bad), samples=bad[:2], bound="3 configurations x NUMBA_NUM_THREADS in {1,4,16} + one five-terminal run x 6 PYTHONHASHSEED values, fresh processes, sha256")
+    from checks import history_native as hn
+    bad3, n3 = hn.search(seed, reduced=False)
+    bad, n = bad + bad2 + bad3, n + n2 + n3
+    bnd = dict(kind="bounded", evaluations=n, failing=len(bad), samples=bad[:2], bound="3 configurations x NUMBA_NUM_THREADS in {1,4,16} + one five-terminal run x 6 PYTHONHASHSEED values, fresh processes, sha256; "
+               "9 object histories (options / device / copy / other solvers / solver solved before / path / parameters reused, post-processing twice) vs freshly built objects, bit-identical frames")
     vio = []
     if bad:
         import json, os
